@@ -70,7 +70,13 @@ def main(argv=None):
     inconclusive = []
 
     runner = None
+    m_future = None
     try:
+        if "mir" in spec and (only_mir or not args.only):
+            # engine M runs in a thread next to engine K's worker processes (it is one z3 process worth of CPU)
+            import concurrent.futures
+            m_pool = concurrent.futures.ThreadPoolExecutor(max_workers=1)
+            m_future = m_pool.submit(spec["mir"], args.tier, seed)
         if queries:
             runner = KaniRunner(queries, jobs=args.jobs, keep=args.keep)
             try:
@@ -103,8 +109,12 @@ def main(argv=None):
                         inconclusive.append(f"{q.name}: solver counterexample did not reproduce natively ({rep.get('why', 'playback test passed')})")
                 elif r.status == "pass" and q.expect == "known" and q.known_id in known:
                     log(f"[note] known finding {q.known_id} no longer reproduces (harness {q.name} passes)")
-        if "mir" in spec and (only_mir or not args.only):
-            m_results, m_viol, m_inc = spec["mir"](args.tier, seed)
+        if m_future is not None:
+            try:
+                m_results, m_viol, m_inc = m_future.result()
+            except Exception as e:      # an engine error is never a verdict
+                import traceback
+                m_results, m_viol, m_inc = [], [], [f"engine M failed: {e!r} {traceback.format_exc()[-600:]}"]
             for (name, payload) in m_viol:
                 path = save_replay_m(pid, name, payload, args.tier, seed)
                 violations.append((name, path))
@@ -215,4 +225,13 @@ def replay_file(pid, mod, path) -> int:
 
 
 if __name__ == "__main__":
-    sys.exit(main())
+    try:
+        rc = main()
+    except SystemExit:
+        raise
+    except BaseException as e:           # internal error of the checker: inconclusive (2), never a verdict
+        import traceback
+        traceback.print_exc()
+        print(f"INCONCLUSIVE internal error of the checker: {e!r}")
+        rc = 2
+    sys.exit(rc)
